@@ -511,6 +511,25 @@ pub fn configs(prop: HProp, tier: Tier) -> Vec<ChainCfg> {
             }
         }
     }
+    // back-pressure on the clients' outbound side somewhere along the chain
+    for depth in 2..=(if prop == HProp::C04 { 3usize } else { 0 }) {
+        for gated in 0..depth {
+            for last_finishes in [false, true] {
+                let hops: Vec<HopKind> = (0..depth).map(|i| if i == gated { HopKind::Gated } else { HopKind::Mem }).collect();
+                for abandon_after in [None, Some(2)] {
+                    out.push(ChainCfg {
+                        hops: hops.clone(),
+                        r_ns: 10_000_000_000,
+                        tau_ms: vec![0; depth],
+                        regime: Regime::NoSubscriber,
+                        last_finishes,
+                        abandon_after,
+                        alphabet: H_ABANDON | H_FINISH | H_GATE,
+                    });
+                }
+            }
+        }
+    }
     // one serde chain so that cancels travel over a byte pipe as well
     for last_finishes in [false, true] {
         out.push(ChainCfg {
